@@ -63,13 +63,18 @@ func genC12(r *h.Rng, tier string, idx int) *h.Plan {
 			var op h.Op
 			switch r.Weighted(weights) {
 			case 0:
-				op = h.Op{K: "addfact", Id: r.Pick(ids), J: map[string]interface{}{"v": fmt.Sprintf("u%d", uniq)}}
+				// "v" is unique (every read is attributable to one write); "tag" comes
+				// from a small domain, so that a term leaves and re-enters the index
+				op = h.Op{K: "addfact", Id: r.Pick(ids), J: map[string]interface{}{"v": fmt.Sprintf("u%d", uniq), "tag": r.Pick([]string{"a", "b"})}}
 			case 1:
 				op = h.Op{K: "remfact", Id: r.Pick(ids)}
 			case 2:
 				op = h.Op{K: "getfact", Id: r.Pick(ids)}
 			case 3:
 				op = h.Op{K: "search", J: map[string]interface{}{"v": "?x"}}
+				if r.Bool() {
+					op = h.Op{K: "search", J: map[string]interface{}{"tag": r.Pick([]string{"a", "b"})}}
+				}
 			case 4:
 				op = h.Op{K: "addrule", Id: r.Pick(rids), J: map[string]interface{}{
 					"when": map[string]interface{}{"pattern": map[string]interface{}{"ev": "e"}}, "action": map[string]interface{}{"code": fmt.Sprintf("'m%d'", uniq)}}}
@@ -585,6 +590,12 @@ func execC12(t *testing.T, plan *h.Plan, trace bool) *h.Result {
 	for _, id := range []string{"s1", "s2", "s3", "q1", "q2", "!q1.disabled", "!q2.disabled"} {
 		maxSeq += 2
 		op := h.Op{K: "finalget", Id: id}
+		ops = append(ops, porcupine.Operation{ClientId: fin, Input: op, Call: maxSeq, Output: c12Do(loc, eng.Store, op), Return: maxSeq + 1})
+	}
+	// ... and by final searches by constant: the index must agree with the items
+	for _, tag := range []string{"a", "b"} {
+		maxSeq += 2
+		op := h.Op{K: "search", Loc: "L", J: map[string]interface{}{"tag": tag}}
 		ops = append(ops, porcupine.Operation{ClientId: fin, Input: op, Call: maxSeq, Output: c12Do(loc, eng.Store, op), Return: maxSeq + 1})
 	}
 	r := porcupine.CheckOperationsTimeout(c12Model, ops, 20*time.Second)
